@@ -19,7 +19,8 @@ ResultPath == IOEnv.VERIF_RESULT
 
 When(c, s) == IF c THEN <<s>> ELSE <<>>
 
-KeyOf(e) == LET k == Trace[e.keyline] IN k
+\* a sig event carries the fields of its key (seed, hf, h, leaves), so events are judged independently
+KeyOf(e) == e
 Exp(k) == Expand(k.seed)
 
 JudgeKey(e) ==
